@@ -72,6 +72,84 @@ def obs_class(want, got):
     return "no-exception"
 
 
+_DRIVER = r'''
+import json, sys, importlib
+moddir, modname, infile, outfile, start, careful_until = sys.argv[1], sys.argv[2], sys.argv[3], sys.argv[4], int(sys.argv[5]), int(sys.argv[6])
+sys.path.insert(0, moddir)
+mod = importlib.import_module(modname)
+if not mod.__file__.endswith(".so"):
+    print("@@" + json.dumps({"fatal": "not an extension: %s" % mod.__file__})); sys.exit(3)
+def dec(x):
+    if isinstance(x, dict):
+        if "big" in x: return int(x["big"])
+        s = x["f"]
+        return float(s) if s in ("nan", "inf", "-inf") else float.fromhex(s)
+    return x
+table = json.load(open(infile))
+out = open(outfile, "a")
+buf = []
+for i in range(start, len(table)):
+    fn, args = table[i]
+    if i <= careful_until or len(buf) >= 200:
+        out.write("".join(buf)); out.flush(); buf = []
+    try:
+        r = getattr(mod, fn)(*[dec(a) for a in args])
+        r = ["t", r[0]] if type(r) is tuple and len(r) == 1 and type(r[0]) is str else ["o", type(r).__name__, repr(r)[:100]]
+    except BaseException as e:
+        r = "E:" + type(e).__name__
+    buf.append(json.dumps([i, r]) + "\n")
+    if i <= careful_until:
+        out.write("".join(buf)); out.flush(); buf = []
+out.write("".join(buf)); out.flush(); out.close()
+print("@@" + json.dumps({"done": len(table)}))
+'''
+MAX_CRASHES = 12      # per module; the remaining calls of a module that keeps dying are not replayed (the crashes are reported)
+
+
+def run_table(build, table, tag="c18"):
+    """Call table on a compiled module in child processes; a death of the child is attributed to the exact call
+    (after a crash the next 250 calls are flushed one by one).  -> (observations, number of calls not replayed)"""
+    moddir = os.path.dirname(build.so)
+    inf = os.path.join(moddir, tag + "_in.json")
+    outf = os.path.join(moddir, tag + "_out.ndjson")
+    with open(inf, "w") as f:
+        json.dump(table, f)
+    if os.path.exists(outf):
+        os.unlink(outf)
+    obs = [None] * len(table)
+    start, careful, crashes = 0, -1, 0
+    while start < len(table):
+        ch = core.run_child(_DRIVER, [moddir, build.name, inf, outf, str(start), str(careful)], timeout=1200, mem_mb=4096)
+        if os.path.exists(outf):
+            with open(outf) as f:
+                for line in f:
+                    try:
+                        i, r = json.loads(line)
+                    except ValueError:
+                        continue
+                    obs[i] = r
+        if any("fatal" in j for j in ch.json_lines()):
+            core.die("driver: %r" % ch.json_lines())
+        if ch.rc == 0 and ch.json_lines():
+            break
+        nxt = start
+        while nxt < len(table) and obs[nxt] is not None:
+            nxt += 1
+        if nxt >= len(table):
+            break
+        if nxt > careful:
+            # the batch containing the fatal call was not flushed: run it again call by call
+            start, careful = nxt, nxt + 250
+            continue
+        obs[nxt] = "TIMEOUT" if ch.timed_out else ("CRASH:%d" % ch.signal if ch.crashed else "CRASH:exit%s" % ch.rc)
+        core.CRASH_LOGS.append({"module": build.name, "call": table[nxt], "obs": obs[nxt], "stderr": ch.err[-2000:]})
+        crashes += 1
+        start = nxt + 1
+        if crashes >= MAX_CRASHES:
+            break
+    return obs, sum(1 for o in obs if o is None)
+
+
 def arg_of(x):
     if type(x) is bool or x is None or type(x) is str:
         return x
@@ -237,14 +315,17 @@ def run(tier, seed):
             args = [k, arg_of(val)]
         per_mod[b.name].append((i, b, [fname, args]))
     got = {}
+    n_skipped = 0
     import concurrent.futures
     with concurrent.futures.ThreadPoolExecutor(max_workers=min(core.NCPU, 8)) as ex:
         def one(item):
             name, lst = item
-            return lst, calls.run_calls(lst[0][1], [x[2] for x in lst], timeout=900, tag="c18")
-        for lst, obs in ex.map(one, sorted(per_mod.items())):
+            return lst, run_table(lst[0][1], [x[2] for x in lst])
+        for lst, (obs, skipped) in ex.map(one, sorted(per_mod.items())):
+            n_skipped += skipped
             for (i, b, call), o in zip(lst, obs):
-                got[i] = (obs_of(o), call)
+                if o is not None:
+                    got[i] = (obs_of(o), call)
     phase["replay"] = round(time.time() - t0, 1)
     n_replayed = 0
     n_agree = 0
@@ -291,6 +372,7 @@ def run(tier, seed):
         "eval_steps_by_site": dict(collections.Counter(c["site"] for c in cases)),
         "cases": len(cases), "cases_by_class": {"%s/%s" % k: v for k, v in sorted(by_cls.items())},
         "evaluations": n_replayed, "traces_validated_against_impl": n_replayed, "cells_agreeing": n_agree,
+        "cells_not_replayed_after_repeated_crashes": n_skipped,
         "cells_decided_by_spec": len(cells) - n_undecided, "cells_oracle_only": n_undecided,
         "cells_expected_exception": n_err_expected,
         "model_hazard_cells": {k or "none": v for k, v in hz_count.items()},
@@ -340,8 +422,8 @@ def replay(path, seed):
         print((b.errors or "")[-2000:])
         print("VIOLATION property=%s replay=%s" % (PROP, path))
         return 1
-    cl = [[names[(c["carrier"], c["expr"])], c["call"][1][1:], True] for c in rec["cases"]]
-    obs = calls.run_calls(b, cl, timeout=300, tag="replay")
+    cl = [[names[(c["carrier"], c["expr"])], c["call"][1][1:]] for c in rec["cases"]]
+    obs, _ = run_table(b, cl, tag="replay")
     rc = 0
     for c, o in zip(rec["cases"], obs):
         got = obs_of(o)
